@@ -1,12 +1,82 @@
-(* L6 Syntax — lexical side conditions under which the STRING printed by
-   `flatten` lexes to the token sequence of `Flatten.flatten`.
+(* L6 Syntax — print then re-parse: the surface tree (PrecFullSpec.v) that
+   `flatten` prints for a tree of the flatten-able fragment, and the lexical
+   side conditions under which the STRING printed by `flatten` lexes to the
+   token sequence of `Flatten.flatten`.
    Definitions only. *)
 From Coq Require Import List String Ascii NArith Bool.
 From Omega Require Import L6Syntax.Tokens L6Syntax.Lexer L6Syntax.Parser
-  L6Syntax.Flatten L6Syntax.LexSpec L6Syntax.PrecSpec.
+  L6Syntax.Flatten L6Syntax.LexSpec L6Syntax.PrecSpec L6Syntax.PrecFullSpec.
 Import ListNotations.
 Local Open Scope string_scope.
 
+Definition DFt := Tok "DEF" "==".
+Definition INt := Tok "IN_EXPR" "IN".
+
+(* ---- the fully parenthesised surface tree that `flatten` prints ---- *)
+(* e1 , e2 , ... , en   (n >= 1) *)
+Fixpoint mk_xlist (x : xt) (xs : list xt) : xlist :=
+  match xs with
+  | [] => L1 x
+  | y :: r => LS x CMt (mk_xlist y r)
+  end.
+(* n1 == e1  n2 == e2 ...  (at least one) *)
+Fixpoint mk_xdefs (d : token * xt) (ds : list (token * xt)) : xdefs :=
+  match ds with
+  | [] => D1 (fst d) DFt (snd d)
+  | e :: r => DS (fst d) DFt (snd d) (mk_xdefs e r)
+  end.
+
+Definition xdummy : xt := XName (Tok "NAME" "").
+
+Section XEmbed.
+Variable optok : string -> token.     (* the lexer on one operator spelling *)
+
+Fixpoint xembed (t : tree) : xt :=
+  match t with
+  | Term KVar v => XName (Tok "NAME" v)
+  | Term KOpname v => XName (Tok "NAME" v)
+  | Term KBool v => XBool (optok v)
+  | Term KNum v =>
+      if is_neg v then XNum (XNeg MINUSt (Tok "NUMBER" (tail_str v)))
+      else XNum (XPos (Tok "NUMBER" v))
+  | Term KStr v => XStr DQt (Tok "NAME" (unquote v)) DQt
+  | Un op x => XParen LPt (XPre (optok op) (xembed x)) RPt
+  | Bin _ op l r => XParen LPt (XBin (optok op) (xembed l) (xembed r)) RPt
+  | Opr op args =>
+      let xdef := fun d : tree =>
+        match d with
+        | Bin _ _ (Term _ n) e => (Tok "NAME" n, xembed e)
+        | _ => (Tok "NAME" "", xdummy)
+        end in
+      match args with
+      | [a; b; c] => XIte (optok op) LPt (xembed a) CMt (xembed b) CMt (xembed c) RPt
+      | [p; body] =>
+          match p with
+          | Opr _ (v :: vs) =>
+              XParen LPt
+                (XQuant (optok op) (mk_xlist (xembed v) (map xembed vs)) COLONt
+                        (xembed body)) RPt
+          | Lst (d :: ds) =>
+              XParen LPt
+                (XLet (optok op) (mk_xdefs (xdef d) (map xdef ds)) INt
+                      (xembed body)) RPt
+          | _ => xdummy
+          end
+      | _ => xdummy
+      end
+  | Lst _ => xdummy
+  end.
+
+(* one definition of LET as a (name token, surface tree of the body) *)
+Definition xdef (d : tree) : token * xt :=
+  match d with
+  | Bin _ _ (Term _ n) e => (Tok "NAME" n, xembed e)
+  | _ => (Tok "NAME" "", xdummy)
+  end.
+
+End XEmbed.
+
+(* ---- lexical side conditions ---- *)
 Section SFlat.
 Variable rules : list lexrule.
 Variable reserved values : list (string * string).
@@ -15,6 +85,23 @@ Variable optok : string -> token.
 
 Local Notation ltok := (lexeme_tok rules reserved values ignore).
 Definition sp : option ascii := Some " "%char.
+
+(* binders  v1, v2, ..., vn:  each followed by "," except the last, which is
+   followed by ":" *)
+Definition sflat_binders (sf : tree -> option ascii -> Prop) : list tree -> Prop :=
+  fix all (l : list tree) : Prop :=
+    match l with
+    | [] => True
+    | [v] => sf v (Some ":"%char)
+    | v :: r => sf v (Some ","%char) /\ ltok "," sp = Some CMt /\ all r
+    end.
+(* definitions  n1 == e1 n2 == e2 ...: every lexeme followed by a blank *)
+Definition sflat_def (sf : tree -> option ascii -> Prop) (d : tree) : Prop :=
+  match d with
+  | Bin _ _ (Term KOpname n) e =>
+      ltok n sp = Some (Tok "NAME" n) /\ ltok "==" sp = Some DFt /\ sf e sp
+  | _ => False
+  end.
 
 (* [sflat t c]: every lexeme of the printed form of t, followed by what
    `flatten` prints after it (and the last one by c), is delivered as the
@@ -40,13 +127,34 @@ Fixpoint sflat (t : tree) (c : option ascii) : Prop :=
   | Bin _ op l r =>
       ltok "(" sp = Some LPt /\ sflat l sp /\ ltok op sp = Some (optok op)
       /\ sflat r sp /\ ltok ")" c = Some RPt
-  | Opr op [a; b; d] =>
-      ltok op (Some "("%char) = Some (optok op)
-      /\ ltok "(" (hd_char (flatten_str a ++ ",")) = Some LPt
-      /\ sflat a (Some ","%char) /\ ltok "," sp = Some CMt
-      /\ sflat b (Some ","%char) /\ sflat d (Some ")"%char)
-      /\ ltok ")" c = Some RPt
-  | Opr _ _ => False
+  | Opr op args =>
+      match args with
+      | [a; b; d] =>
+          ltok op (Some "("%char) = Some (optok op)
+          /\ ltok "(" (hd_char (flatten_str a ++ ",")) = Some LPt
+          /\ sflat a (Some ","%char) /\ ltok "," sp = Some CMt
+          /\ sflat b (Some ","%char) /\ sflat d (Some ")"%char)
+          /\ ltok ")" c = Some RPt
+      | [p; body] =>
+          match p with
+          | Opr _ vs =>
+              (* ( op v1, v2: body ) *)
+              is_quant_op op = true
+              /\ ltok "(" sp = Some LPt /\ ltok op sp = Some (optok op)
+              /\ sflat_binders sflat vs
+              /\ ltok ":" sp = Some COLONt /\ sflat body sp
+              /\ ltok ")" c = Some RPt
+          | Lst ds =>
+              (* ( LET n1 == e1 n2 == e2 IN body ) *)
+              is_let_op op = true
+              /\ ltok "(" sp = Some LPt /\ ltok "LET" sp = Some (optok op)
+              /\ allP (sflat_def sflat) ds
+              /\ ltok "IN" sp = Some INt /\ sflat body sp
+              /\ ltok ")" c = Some RPt
+          | _ => False
+          end
+      | _ => False
+      end
   | Lst _ => False
   end.
 
